@@ -176,3 +176,48 @@ pub fn cancelled_take_does_not_leak() {
     drop(c);
     assert!(drops() == 1, "descriptor leaked after a cancelled close");
 }
+
+/// a close future that is created and dropped WITHOUT being polled (the losing branch of a select!, an elapsed timeout) is
+/// a release like any other: if it was the last other holder, the pending close must be woken and complete (F16)
+#[kani::proof]
+#[kani::unwind(5)]
+pub fn unpolled_take_dropped_first_completes() {
+    let fd = unsafe { SharedFd::new_unchecked(Tok) };
+    let c = fd.clone();
+    let (cw, w) = waker();
+    let mut cx = Context::from_waker(&w);
+    let mut fut1 = Box::pin(fd.take());
+    assert!(fut1.as_mut().poll(&mut cx).is_pending());
+    let before = woken(&cw);
+    let fut2 = c.take();
+    drop(fut2);
+    assert!(drops() == 0);
+    assert!(woken(&cw) > before, "SharedFd::take: a close future dropped before its first poll released its handle without waking the pending close");
+    match fut1.as_mut().poll(&mut cx) {
+        Poll::Ready(Some(t)) => { drop(t); assert!(drops() == 1); }
+        _ => assert!(false),
+    }
+}
+
+/// the pending close is polled again with a DIFFERENT waker (the future moved to another task): the last release must wake
+/// the waker of the latest poll, not a stale one
+#[kani::proof]
+#[kani::unwind(5)]
+pub fn take_repolled_with_new_waker_is_woken() {
+    let fd = unsafe { SharedFd::new_unchecked(Tok) };
+    let c = fd.clone();
+    let (_cw1, w1) = waker();
+    let mut cx1 = Context::from_waker(&w1);
+    let (cw2, w2) = waker();
+    let mut cx2 = Context::from_waker(&w2);
+    let mut fut = Box::pin(fd.take());
+    assert!(fut.as_mut().poll(&mut cx1).is_pending());
+    assert!(fut.as_mut().poll(&mut cx2).is_pending());
+    let before = woken(&cw2);
+    drop(c);
+    assert!(woken(&cw2) > before, "last release woke a stale waker, not the one of the latest poll");
+    match fut.as_mut().poll(&mut cx2) {
+        Poll::Ready(Some(t)) => { drop(t); assert!(drops() == 1); }
+        _ => assert!(false),
+    }
+}
